@@ -201,6 +201,10 @@ def run(ctx, crate):
     rule_commit_on_success(ctx, crate)
     rule_io_no_retry(ctx, crate)
     rule_screen_model_no_panic(ctx, crate)
+    # a hand-over of rows between the two counters (Clear/Keep + the matching zombie_lines_count store) completes on every
+    # exit, the error exits of the terminal calls included: a failure in between leaves rows owned twice
+    from .c03 import rule_row_transfer_pairing
+    rule_row_transfer_pairing(ctx, crate)
     # "later calls on the same bar keep working": an I/O failure never ends the steady-tick thread
     from .c08 import rule_ticker_exit_conditions
     rule_ticker_exit_conditions(ctx, crate)
@@ -240,7 +244,18 @@ def run(ctx, crate):
             # all defs of _0 reachable after dc must depend on dc
             after = b.reach([dc.target]) if dc.target is not None else set()
             bad = []
+            # `down()?; ..; Ok(())`: the failure left through the Break edge of the `?`; what is stored on the Continue
+            # side needs no further tie to the call
+            reported_by_try = set()
+            if not dc.dest["p"]:
+                for tc in b.calls(K.TRY_BRANCH):
+                    if tc.args and operand_local(tc.args[0]) == dc.dest["l"] and not tc.args[0]["place"]["p"]:
+                        e = K.try_edges(b, tc)
+                        if e:
+                            reported_by_try |= b.reach([e[1]]) - b.edge_region((e[0], e[2]))
             for d in b.defs().get(0, ()):
+                if d.get("bb") in reported_by_try:
+                    continue
                 if d.get("bb") in after or d.get("bb") == dc.bb:
                     if d["kind"] == "call" and d["call"].bb == dc.bb:
                         continue
